@@ -18,7 +18,7 @@ ESC_SEGS = ["%2E", "%2e%2E", ".%2E", "%2E%2Ea"]
 ALL_SEGS = LITERAL_SEGS + ESC_SEGS
 DOT = {".", "..", "%2E", "%2e%2E", ".%2E"}
 
-REQUOTE_ENTRIES = ["ctor", "ctor-noauth", "join", "join-rooted", "ctor-noauth-rootless", "join-noauth-base", "join-empty-base", "join-trailing-base", "join-root-base", "ctor-userinfo-port"]
+REQUOTE_ENTRIES = ["ctor-emptyhost-port", "ctor-emptyhost-user", "ctor", "ctor-noauth", "join", "join-rooted", "ctor-noauth-rootless", "join-noauth-base", "join-empty-base", "join-trailing-base", "join-root-base", "ctor-userinfo-port"]
 QUOTE_ENTRIES = ["build", "with_path", "with_path-noslash", "div", "div-trailing", "div-empty", "joinpath-splits", "build-noauth",
                  "div-noauth", "with_path-noauth", "ctor-encoded", "joinpath-encoded", "with_path-encoded"]
 
@@ -36,6 +36,10 @@ def check_path(ctx, backend, entry, segs, enumerated=False):
     try:
         if entry == "ctor":
             results.append((URL("http://h/" + rel), ref.remove_dot_segments(dec("/" + rel)) or "/"))
+        elif entry in ("ctor-emptyhost-port", "ctor-emptyhost-user"):
+            # an authority without a host (only a port / only userinfo) is still an authority
+            pre = {"ctor-emptyhost-port": "foo://:8080/", "ctor-emptyhost-user": "//user@/"}[entry]
+            results.append((URL(pre + rel), ref.remove_dot_segments(dec("/" + rel)) or "/"))
         elif entry == "ctor-noauth":
             if rel.startswith("/"):
                 return  # '//x' would be an authority
@@ -134,7 +138,45 @@ def check_path(ctx, backend, entry, segs, enumerated=False):
             ctx.check(again == got, "normalisation is not idempotent (re-parse changes the path)", observed=again, expected=got, entry=entry)
 
 
-CHECKS = {"path": check_path}
+DERIVE = {"with_suffix-empty": lambda u: u.with_suffix(""), "with_suffix-empty-twice": lambda u: u.with_suffix("").with_suffix(""), "with_suffix-x": lambda u: u.with_suffix(".x").with_suffix(""),
+          "with_name-dot-surrogate": lambda u: u.with_name(".\udc00"), "with_name-dotdot-surrogate": lambda u: u.with_name(".\ud800.\udfff"), "with_name-surrogate-dot": lambda u: u.with_name("\ud800.."),
+          "with_name-own-stem": lambda u: u.with_name(u.name[: -len(u.suffix)] if u.suffix else u.name), "with_name-esc-dot": lambda u: u.with_name("%2E"),
+          "div-dot-surrogate": lambda u: u / "..\udc00", "joinpath-dot-surrogate": lambda u: u.joinpath("a", ".\ud800", "b")}
+
+
+def check_derived(ctx, backend, segs, op, enumerated=False):
+    """producers outside the list of the statement ("however produced"): whatever they return under an authority has no dot segment and
+    is a fixed point of re-parsing; refusing the operation (ValueError) is the other acceptable outcome"""
+    Y = ctx.yarl(backend)
+    rel = "/".join(segs)
+    try:
+        base = Y.URL("http://h/x/" + rel)
+    except ValueError:
+        ctx.case(False, label="rejected-base")
+        return
+    try:
+        u = DERIVE[op](base)
+    except ValueError:
+        ctx.case(True, label="refused:" + op, key=(op, backend, tuple(segs)), enumerated=enumerated)
+        return
+    ctx.case(True, label="derived:" + op, key=(op, backend, tuple(segs)), enumerated=enumerated)
+    got = u.raw_path
+    parts = got.split("/")
+    if not ctx.check("." not in parts and ".." not in parts, "dot segment left under an authority", observed=[str(base), got], expected="no '.'/'..' segment, or ValueError", entry=op):
+        return
+    again = Y.URL(str(u)).raw_path
+    ctx.check(again == got, "normalisation is not idempotent (re-parse changes the path)", observed=again, expected=got, entry=op)
+
+
+def derived_all(ctx, backend, maxlen):
+    alphabet = ["", "a", "..a", "...a", "..a.b", "a..", ".a", "...", "a.b", "%2E%2Ea", "..%2Ea", ".%2e.x"]
+    for L in range(1, maxlen + 1):
+        for segs in itertools.product(alphabet, repeat=L):
+            for op in sorted(DERIVE):
+                ctx.run("derived", backend=backend, segs=list(segs), op=op, enumerated=True)
+
+
+CHECKS = {"path": check_path, "derived": check_derived}
 
 
 def enumerate_all(ctx, backend, maxlen, part, nparts):
@@ -167,4 +209,5 @@ def shards(tier, seed):
         for p in range(nparts):
             out.append({"name": "enum-%s-%d" % (b, p), "fn": "enumerate_all", "kw": {"backend": b, "maxlen": maxlen, "part": p, "nparts": nparts}})
         out.append({"name": "long-%s" % b, "fn": "random_long", "kw": {"backend": b, "n": n}})
+        out.append({"name": "derived-%s" % b, "fn": "derived_all", "kw": {"backend": b, "maxlen": 2 if tier == "quick" else 3}})
     return out
